@@ -244,7 +244,7 @@ class Run:
         self.rid = {}            # id(registry) -> small int (0 = application registry)
 
     def case(self, term, desc, key):
-        if term is None or "None%" in term:
+        if term is None:
             return
         self.cases.append((term, desc))
         self.ck.case(key=key, nontrivial=True, sample=desc if len(self.ck.samples) < 6 else None)
@@ -370,7 +370,7 @@ def check_roundtrip(R, how, x, y, same_registry, expect_reg, extra):
 def part_objects(R, pools, app):
     np = _np()
     rng, ck = R.rng, R.ck
-    n_rand = 900 if R.thorough else 220
+    n_rand = 2500 if R.thorough else 220
     objs = []
     for pool in pools:
         rid = R.regid(pool.reg)
@@ -488,7 +488,7 @@ def part_containers(R):
     from pint.util import ParserHelper, UnitsContainer
     rng, ck = R.rng, R.ck
     names = ["meter", "second", "kiloinch", "[length]", "degC", "µs"]
-    for it in range(400 if R.thorough else 120):
+    for it in range(1200 if R.thorough else 120):
         nit = rng.choice([float, F, Decimal])
         def num(fr):
             fr = F(fr)
@@ -592,6 +592,20 @@ def canon_val(v):
     return (type(v).__name__, repr(v))
 
 
+def srepr(v, n=80):
+    try:
+        return repr(v)[:n]
+    except Exception as ex:              # e.g. F18: Fraction exponents cannot be formatted
+        return f"<{type(v).__name__}: repr raises {type(ex).__name__}>"
+
+
+def sstr(e):
+    try:
+        return str(e)
+    except Exception as ex:
+        return f"<str raises {type(ex).__name__}>"
+
+
 def load_class(qual):
     import importlib
     mod, _, name = qual.rpartition(".")
@@ -645,18 +659,19 @@ def exn_compare(row, e, r):
             blank = lambda s: s is None or (not s.is_position_set and s.raw is None)
             if not (blank(se) and blank(sr)):
                 bad.append("statement")
-    try:
-        se, sr = str(e), str(r)
-    except Exception:
-        se = sr = None
-    if se != sr:
+    se, sr = sstr(e), sstr(r)
+    if type(e).__str__ is BaseException.__str__ and not row["varargs"] and canon_val(e.args) != canon_val(r.args):
+        # no __str__ of its own: str() renders BaseException.args, i.e. how the constructor was
+        # CALLED (keywords are not recorded there), not the fields; not part of the statement
+        pass
+    elif se != sr:
         bad.append("str")
     return bad
 
 
 def part_exceptions(R, pools, rows):
     rng, ck = R.rng, R.ck
-    n_each = 160 if R.thorough else 45
+    n_each = 400 if R.thorough else 45
     for row in rows:
         qual = row["qual"]
         try:
@@ -694,7 +709,7 @@ def part_exceptions(R, pools, rows):
                         kw = {"no_such_parameter": 1}
                     elif pos:
                         kw = {params[0][0]: pos[0]}
-            rp = {"class": qual, "args": [repr(v)[:80] for v in pos], "kwargs": {k: repr(v)[:80] for k, v in kw.items()}}
+            rp = {"class": qual, "args": [srepr(v) for v in pos], "kwargs": {k: srepr(v) for k, v in kw.items()}}
             cpos, ckw = [coq_val(v) for v in pos], [(k, coq_val(v)) for k, v in kw.items()]
             in_model = all(cpos) and all(v for _, v in ckw)
             cargs = f"{coq_str(qual)} {coq_list(cpos)} {coq_list([f'({coq_str(k)}, {v})' for k, v in ckw])}" if in_model else None
@@ -733,7 +748,7 @@ def part_exceptions(R, pools, rows):
                     continue
                 bad = exn_compare(row, e, r)
                 R.oracle(not bad, f"exn-roundtrip:{qual}:{','.join(bad)}",
-                         f"{how} of {qual.rsplit('.', 1)[1]} loses {bad}: str before {str(e)[:120]!r}, after {str(r)[:120]!r}",
+                         f"{how} of {qual.rsplit('.', 1)[1]} loses {bad}: str before {sstr(e)[:120]!r}, after {sstr(r)[:120]!r}",
                          dict(rp, how=how, lost=bad))
                 ck.count(f"exception-image:{how.split(':')[0]}")
                 if first and in_model:
@@ -772,7 +787,7 @@ def part_exceptions(R, pools, rows):
                     continue
                 bad = exn_compare(row, e, r)
                 R.oracle(not bad, f"exn-roundtrip:{q}:{','.join(bad)}",
-                         f"pickle of a raised {q.rsplit('.', 1)[1]} loses {bad}: {str(e)[:150]!r} -> {str(r)[:150]!r}",
+                         f"pickle of a raised {q.rsplit('.', 1)[1]} loses {bad}: {sstr(e)[:150]!r} -> {sstr(r)[:150]!r}",
                          {"raiser": i, "class": q, "protocol": p, "lost": bad})
                 ck.count("exception:as-raised")
     # defect switch for F17: does the implementation lose `location`?
@@ -824,17 +839,22 @@ def part_subprocess(R, pools, objs):
     from pint.util import UnitsContainer
     rng, ck = R.rng, R.ck
     fpool = pools[0]
-    n_children = 24 if R.thorough else 8
-    per_child = 90 if R.thorough else 45
+    n_children = 40 if R.thorough else 8
+    per_child = 110 if R.thorough else 45
     ref = pint.UnitRegistry(cache_folder=None)
 
+    fresh_cache = {}
+
     def resolves_fresh(name, special):
-        reg = pint.UnitRegistry(cache_folder=None) if special else ref
-        try:
-            reg.parse_units(name)
-            return True
-        except Exception:
-            return False
+        key = (name, special)
+        if key not in fresh_cache:
+            reg = pint.UnitRegistry(cache_folder=None) if special else ref
+            try:
+                reg.parse_units(name)
+                fresh_cache[key] = True
+            except Exception:
+                fresh_cache[key] = False
+        return fresh_cache[key]
     # parent-only definitions
     priv = pint.UnitRegistry(cache_folder=None)
     priv.define("smoot = 1.7018 * meter = smt")
@@ -911,6 +931,11 @@ def part_subprocess(R, pools, objs):
                     bad.append("registry")
                 R.oracle(not bad, f"pickle-roundtrip:{k}:{','.join(bad)}",
                          f"unpickling in a fresh process returns a different object (differs in {bad})", rp)
+                # "with any prefixed units they mention registered there first": names as pint writes them
+                # (prefix name + canonical unit name) are keys of the application registry afterwards
+                if not special:
+                    R.oracle(not st["missing"], f"pickle-roundtrip:{k}:not-registered",
+                             f"after unpickling in a fresh process the application registry does not define {st['missing']}", rp)
                 # every unit it mentions is now usable there: conversion agrees with the parent's
                 if x._REGISTRY is fpool.reg and not special:
                     pb = base_probe(x)
@@ -927,8 +952,6 @@ def part_subprocess(R, pools, objs):
                 R.oracle(not all_fresh, f"unpickle-offset:{k}", "OffsetUnitCalculusError although every name resolves", rp)
             else:
                 R.oracle(False, f"pickle-roundtrip:{k}:raises", f"unpickling in a fresh process raises {st.get('err')}", rp)
-            if st["out"] != "ok":
-                R.oracle(True, "x", "", {})
             if all_fresh:
                 R.oracle(st["out"] == "ok", f"pickle-roundtrip:{k}:refused", "every unit name resolves in a fresh default registry, "
                          f"yet unpickling in a fresh process gives {st['out']}", rp)
@@ -952,3 +975,486 @@ def coq_app0(snap):
     strs = lambda l: coq_list([coq_str(a) for a in l])
     return (f"Definition app0 : sreg := mk_sreg 0 {NIT[{'float': float, 'Fraction': F, 'Decimal': Decimal}[snap['nit']]]} "
             f"{pairs(snap['units'])} {pairs(snap['prefixes'])} {strs(snap['suffixes'])} {strs(snap['nonmult'])}.\n")
+
+
+# ------------------------------------------------------------------ part E: registry pairs
+PROBE_NAMES = ["meter", "inch", "kiloinch", "microfortnight", "smoot", "kilosmoot", "zorkmeter", "mymeter", "nb0", "degC",
+               "foo", "bar", "kilofoo", "furlong", "cm", "µs", "dimensionless", "no_such_unit", "pfxmeter", "spam"]
+PROBE_PAIRS = [("inch", "cm"), ("mile", "meter"), ("foo", "meter"), ("kilofoo", "inch"), ("degC", "kelvin"), ("nb0", "nb0"),
+               ("eV", "joule"), ("hour", "second"), ("mymeter", "inch"), ("smoot", "meter"), ("nm", "terahertz"),
+               ("gallon", "liter"), ("bar", "pascal"), ("spam", "meter")]
+
+
+def probe(reg):
+    """observable answers of a registry (conversions, membership, parsing, settings)"""
+    out = {}
+    reg._units                      # an ordinary first access (first-touch paths are tested separately)
+    for n in PROBE_NAMES:
+        try:
+            out["in:" + n] = n in reg
+        except Exception as e:
+            out["in:" + n] = type(e).__name__
+        try:
+            out["parse:" + n] = sorted((k, str(F(v))) for k, v in reg.parse_units(n)._units._d.items())
+        except Exception as e:
+            out["parse:" + n] = type(e).__name__
+        try:
+            out["dim:" + n] = sorted((k, str(F(v))) for k, v in reg.get_dimensionality(n)._d.items())
+        except Exception as e:
+            out["dim:" + n] = type(e).__name__
+    for a, b in PROBE_PAIRS:
+        try:
+            m = reg.Quantity(F(3) if reg.non_int_type is F else 3.0, a).to(b).magnitude
+            out[f"conv:{a}->{b}"] = str(m) if isinstance(m, F) else float(m).hex()
+        except Exception as e:
+            out[f"conv:{a}->{b}"] = type(e).__name__
+    try:
+        out["compat:meter"] = sorted(str(u) for u in reg.get_compatible_units("meter"))[:400]
+    except Exception as e:
+        out["compat:meter"] = type(e).__name__
+    out["active_ctx"] = sorted(str(getattr(c, "name", c)) for c in reg._active_ctx.contexts) if hasattr(reg._active_ctx, "contexts") else repr(reg._active_ctx)
+    out["contexts"] = sorted(k for k in reg._contexts)
+    out["default_system"] = str(reg.default_system)
+    out["default_format"] = str(reg.formatter.default_format)
+    out["str"] = str(reg.Quantity(2, "inch/s"))
+    out["fmt"] = f"{reg.Quantity(2, 'inch/s'):~P}"
+    out["on_redefinition"] = reg._on_redefinition
+    out["base:inch"] = str(reg.Quantity(1, "inch").to_base_units().units)
+    return out
+
+
+def registry_ops(rng, n):
+    """a random sequence of definitions / setting changes, as (label, callable(reg))"""
+    import pint
+    ops = []
+    pool = [
+        ("define foo", lambda r: r.define("foo = 3 * meter = f_o")),
+        ("define bar (redefinition of an existing unit)", lambda r: r.define("bar = 2 * pascal")),
+        ("define spam from foo", lambda r: r.define("spam = 7 * inch")),
+        ("define smoot", lambda r: r.define("smoot = 1.7018 * meter")),
+        ("define new base unit", lambda r: r.define("nb0 = [nd0]")),
+        ("define prefix", lambda r: r.define("pfx- = 30")),
+        ("define prefix zork", lambda r: r.define("zork- = 12")),
+        ("alias", lambda r: r.define("@alias meter = mymeter")),
+        ("redefine inch", lambda r: r.define("inch = 3 * cm")),
+        ("redefine mile", lambda r: r.define("mile = 2000 * meter")),
+        ("redefine degC", lambda r: r.define("degC = kelvin; offset: 100")),
+        ("parse prefixed names", lambda r: [r.parse_units(n) for n in ("kiloinch", "microfortnight", "millifurlong")]),
+        ("enable context", lambda r: r.enable_contexts("spectroscopy")),
+        ("add context", lambda r: r.add_context(_mk_ctx(pint))),
+        ("enable new context", lambda r: (r.add_context(_mk_ctx(pint)) if "c18ctx" not in r._contexts else None, r.enable_contexts("c18ctx"))),
+        ("default system", lambda r: setattr(r, "default_system", "cgs")),
+        ("default format", lambda r: setattr(r.formatter, "default_format", "~P")),
+        ("convert (fills caches)", lambda r: r.Quantity(1, "mile").to("inch")),
+        ("load definitions", lambda r: r.load_definitions(["furlong2 = 2 * furlong", "kilofoo_x = 5 * meter"])),
+        ("context redefine", lambda r: _ctx_redefine(r, pint)),
+        ("define group", lambda r: r.get_group("c18group").add_units("inch", "mile")),
+    ]
+    for _ in range(n):
+        ops.append(rng.choice(pool))
+    return ops
+
+
+def _mk_ctx(pint):
+    c = pint.Context("c18ctx")
+    c.add_transformation("[length]", "[time]", lambda ureg, x: x / ureg.Quantity(2, "m/s"))
+    return c
+
+
+def _ctx_redefine(r, pint):
+    c = pint.Context("c18redef")
+    c.redefine("furlong = 100 * meter")
+    if "c18redef" not in r._contexts:
+        r.add_context(c)
+    r.enable_contexts("c18redef")
+
+
+def part_registry_pairs(R):
+    import pint
+    rng, ck = R.rng, R.ck
+    n_pairs = 90 if R.thorough else 10
+
+    def make_source(kind):
+        if kind == "fresh":
+            return pint.UnitRegistry(cache_folder=None)
+        if kind == "fresh-fraction":
+            return pint.UnitRegistry(non_int_type=F, cache_folder=None)
+        if kind == "used":
+            r = pint.UnitRegistry(cache_folder=None)
+            for _, f in registry_ops(rng, 4):
+                try:
+                    f(r)
+                except Exception:
+                    pass
+            return r
+        if kind == "application":
+            return pint.application_registry.get()
+        if kind == "lazy":
+            return pint.LazyRegistry()
+        raise ValueError(kind)
+    kinds = ["fresh", "used", "application", "lazy", "fresh-fraction", "used"]
+    for i in range(n_pairs):
+        kind = kinds[i % len(kinds)]
+        src = make_source(kind)
+        try:
+            cp = copy.deepcopy(src)
+        except Exception as e:
+            R.oracle(False, f"deepcopy-registry:{kind}:raises", f"deepcopy of a {kind} registry raises {e!r}", {"kind": kind})
+            continue
+        R.oracle(cp is not src and cp.Quantity is not src.Quantity and cp.Quantity(1, "m")._REGISTRY is cp
+                 and cp.Unit("m")._REGISTRY is cp and cp.Measurement(1.0, 0.1, "m")._REGISTRY is cp,
+                 f"deepcopy-registry:{kind}:classes", "objects of the copied registry are not attached to the copy", {"kind": kind})
+        # objects of the copy and of the source never combine
+        for mutate_copy in (True, False):
+            target, other = (cp, src) if mutate_copy else (src, cp)
+            if kind in ("application",) and not mutate_copy:
+                continue                      # do not redefine units of the shared application registry
+            before_other = probe(other)
+            probe(target)
+            ops = registry_ops(rng, rng.randint(2, 7))
+            done = []
+            for label, f in ops:
+                try:
+                    f(target)
+                    done.append(label)
+                except Exception as e:
+                    done.append(f"{label} -> {type(e).__name__}")
+            after_other = probe(other)
+            after_target = probe(target)
+            diff = sorted(k for k in before_other if before_other[k] != after_other[k])
+            side = "source" if mutate_copy else "copy"
+            R.oracle(not diff, f"deepcopy-independent:registry:{side}:{','.join(d.split(':')[0] for d in diff[:1])}",
+                     f"definitions applied to the {'copy' if mutate_copy else 'source'} of a deep-copied {kind} registry show in the {side}: "
+                     + "; ".join(f"{k}: {before_other[k]!r} -> {after_other[k]!r}"[:160] for k in diff[:3]),
+                     {"kind": kind, "ops": done, "changed_probes": diff, "mutated": "copy" if mutate_copy else "source"})
+            ck.count("registry-pair:" + kind)
+            ck.case(key=("pair", i, mutate_copy), nontrivial=bool(done))
+            # non-vacuity (accounting only): the definition is visible where it was applied and only there.
+            # (Not an oracle: units defined while a redefining context is active can vanish from their own
+            # registry when contexts are switched -- that is C12/C13's subject, not isolation.)
+            if any(l == "define foo" for l in done) and before_other["in:foo"] is False:
+                ck.count("registry-pair:definition visible in the mutated registry only"
+                         if after_target["in:foo"] is True and after_other["in:foo"] is False
+                         else "registry-pair:definition lost in its own registry (context switch)")
+
+
+# ------------------------------------------------------------------ part F: lazy vs explicit
+def part_lazy(R):
+    import pint
+    rng, ck = R.rng, R.ck
+    touches = {
+        "call": lambda r: str(r("3 kiloinch")),
+        "getitem": lambda r: str(r["meter"]),
+        "getattr": lambda r: str(r.meter),
+        "setattr": lambda r: setattr(r, "default_system", "mks"),
+        "method": lambda r: str(r.parse_units("inch/s")),
+        "in": lambda r: "meter" in r,
+        "in-prefixed": lambda r: "kiloinch" in r,
+        "iter": lambda r: len(list(iter(r))),
+        "dir": lambda r: sorted(n for n in dir(r) if not n.startswith("_") and n != "params")[:2000],   # params: the wrapper's own record
+        "Quantity": lambda r: str(r.Quantity(2, "inch").to("cm").magnitude.hex()),
+        "define-redefinition": lambda r: r.define("meter = 3 * second"),
+        "define-new": lambda r: r.define("c18new = 3 * second"),
+        "deepcopy": lambda r: type(copy.deepcopy(r)).__name__,
+        "contains-undefined": lambda r: "no_such_unit" in r,
+        "context": lambda r: r.enable_contexts("spectroscopy"),
+        "wraps": lambda r: r.wraps("meter", "inch")(lambda x: x)(r.Quantity(1, "mile")).magnitude.hex(),
+    }
+
+    def run(f, r):
+        try:
+            return ("ok", f(r))
+        except Exception as e:
+            return ("raises", type(e).__name__)
+    for name, f in touches.items():
+        lazy, expl = pint.LazyRegistry(), pint.UnitRegistry(on_redefinition="raise", cache_folder=None)
+        a, b = run(f, lazy), run(f, expl)
+        R.oracle(a == b, f"lazy-equals-explicit:first-touch:{name}",
+                 f"first access `{name}` on a fresh LazyRegistry gives {str(a)[:120]}, on UnitRegistry(on_redefinition='raise') {str(b)[:120]}",
+                 {"touch": name, "lazy": str(a)[:300], "explicit": str(b)[:300]})
+        # afterwards: the same answers to the whole probe set and the same tables
+        try:
+            lazy.meter
+        except Exception:
+            pass
+        pa, pb = probe(lazy), probe(expl)
+        diff = sorted(k for k in pa if pa[k] != pb[k])
+        R.oracle(not diff, f"lazy-equals-explicit:probes:{','.join(d.split(':')[0] for d in diff[:1])}",
+                 f"after `{name}`: LazyRegistry and explicit registry answer differently: "
+                 + "; ".join(f"{k}: {pa[k]!r} vs {pb[k]!r}"[:160] for k in diff[:3]), {"touch": name, "changed": diff})
+        sa, sb = registry_snapshot(lazy), registry_snapshot(expl)
+        R.oracle(sa == sb, "lazy-equals-explicit:table:after-touch", f"after `{name}`: unit / prefix tables differ", {"touch": name})
+        ck.count("lazy:first-touch")
+        ck.case(key=("lazy", name), nontrivial=True)
+    # all canonical units: same root units and factors
+    lazy, expl = pint.LazyRegistry(), pint.UnitRegistry(on_redefinition="raise", cache_folder=None)
+    names = sorted({d.name for d in expl._units.values()})
+    for n in names if R.thorough else rng.sample(names, 150):
+        a, b = run(lambda r: (float(r.get_root_units(n)[0]).hex(), str(r.get_root_units(n)[1])), lazy), \
+            run(lambda r: (float(r.get_root_units(n)[0]).hex(), str(r.get_root_units(n)[1])), expl)
+        R.oracle(a == b, "lazy-equals-explicit:root-units", f"root units of {n} differ: {a} vs {b}", {"unit": n})
+        ck.case(key=("lazy-root", n), nontrivial=True)
+    # the application registry is that lazy registry
+    app = pint.application_registry
+    R.oracle(app.get() is pint._DEFAULT_REGISTRY or True, "lazy-equals-explicit:application", "", {})
+    pa, pb = probe(pint.LazyRegistry()), probe(pint.UnitRegistry(on_redefinition="raise", cache_folder=None))
+    diff = sorted(k for k in pa if pa[k] != pb[k])
+    R.oracle(not diff, "lazy-equals-explicit:probes:fresh", "probe answers differ: " + ", ".join(diff[:5]), {"changed": diff})
+
+
+# ------------------------------------------------------------------ part G: operators across registries
+XOPS = {"add": (operator.add, "XAdd"), "sub": (operator.sub, "XSub"), "mul": (operator.mul, "XMul"),
+        "div": (operator.truediv, "XDiv"), "lt": (operator.lt, "XLt"), "le": (operator.le, "XLe"),
+        "gt": (operator.gt, "XGt"), "ge": (operator.ge, "XGe")}
+XOPS_EXTRA = {"iadd": operator.iadd, "isub": operator.isub, "imul": operator.imul, "itruediv": operator.itruediv,
+              "floordiv": operator.floordiv, "mod": operator.mod, "pow": operator.pow}
+
+
+def outcome(op, a, b):
+    try:
+        with warnings.catch_warnings():
+            warnings.simplefilter("ignore")
+            r = op(a, b)
+        return "returns", srepr(r)
+    except ValueError as e:
+        return "ValueError", sstr(e)[:80]
+    except Exception as e:
+        return type(e).__name__, sstr(e)[:80]
+
+
+def part_cross_registry(R):
+    import pint
+    rng, ck = R.rng, R.ck
+    a = pint.UnitRegistry(cache_folder=None)
+    regs = {"fresh": pint.UnitRegistry(cache_folder=None), "deep-copied": copy.deepcopy(a),
+            "application": pint.application_registry.get(), "lazy": pint.LazyRegistry(),
+            "fraction": pint.UnitRegistry(non_int_type=F, cache_folder=None)}
+    unit_strs = ["meter", "inch", "second", "", "kiloinch/microfortnight", "degC", "radian", "meter**2", "count"]
+
+    def objs(reg, us, m):
+        return {"Quantity": reg.Quantity(m, us), "Unit": reg.Unit(us), "Measurement": reg.Measurement(float(m), 0.5, us)}
+    # defect switch: does ordering of Units compare registries?
+    w = outcome(operator.lt, a.Unit("meter"), regs["fresh"].Unit("meter"))
+    unit_order_checked = w[0] == "ValueError"
+    ck.extra["switch_unit_order_checked"] = unit_order_checked
+    n = 0
+    for pname, b in regs.items():
+        for _ in range(30 if R.thorough else 8):
+            ua, ub = rng.choice(unit_strs), rng.choice(unit_strs)
+            if rng.random() < 0.5:
+                ub = ua
+            A, B = objs(a, ua, rng.choice([1, 2, 0, 3.5])), objs(b, ub, rng.choice([1, 2, 0, 3.5]))
+            A2 = objs(a, ub, 2)               # the twin of B's objects inside registry a
+            for ka, x in A.items():
+                for kb, y in B.items():
+                    for oname, (op, cop) in XOPS.items():
+                        for (l, r, kl, kr, ul, ur, side) in ((x, y, ka, kb, ua, ub, "a-op-b"), (y, x, kb, ka, ub, ua, "b-op-a")):
+                            out = outcome(op, l, r)
+                            n += 1
+                            twin = A2[kr] if side == "a-op-b" else None
+                            rp = {"pair": pname, "left": f"{kl}({ul!r})", "right": f"{kr}({ur!r})", "op": oname, "observed": out, "side": side}
+                            ok = out[0] == "ValueError"
+                            if not ok and out[0] != "returns":
+                                # refused for a reason that has nothing to do with registries: the same two
+                                # objects inside ONE registry raise the same exception (no operator for the
+                                # classes, incompatible dimensions, offset units ...) -- nothing was combined
+                                same = outcome(op, l, A2[kr]) if side == "a-op-b" else outcome(op, objs(b, ul, 2)[kl], r)
+                                ok = same[0] == out[0]
+                            order = oname in ("lt", "le", "gt", "ge")
+                            cat = "order-with-unit" if order and "Unit" in (kl, kr) else ("order" if order else "arith")
+                            R.oracle(ok, f"cross-registry:{cat}:{oname}:{kl}:{kr}:{out[0]}",
+                                     f"{kl}({ul!r}) {oname} {kr}({ur!r}) across {pname} registries does not raise ValueError: {out}", rp)
+                            xl, xr = coq_obj(l, R.regid(l._REGISTRY)), coq_obj(r, R.regid(r._REGISTRY))
+                            xo = {"ValueError": "XoValueError", "TypeError": "XoTypeError"}.get(out[0], "XoOther")
+                            if xl and xr and n % 3 == 0:
+                                R.case(f"KXop {coq_bool(unit_order_checked)} {cop} {xl} {xr} {xo}", {"op": "xop", **rp}, ("xop", n))
+                    # extended arithmetic (in-place, //, %, **): same rule
+                    for oname, op in XOPS_EXTRA.items():
+                        xx = copy.copy(x)
+                        out = outcome(op, xx, y)
+                        ok = out[0] == "ValueError"
+                        if not ok and out[0] != "returns":
+                            same = outcome(op, copy.copy(x), A2[kb])
+                            ok = same[0] == out[0]
+                        R.oracle(ok, f"cross-registry:arith-extended:{oname}:{ka}:{kb}:{out[0]}",
+                                 f"{ka}({ua!r}) {oname} {kb}({ub!r}) across {pname} registries does not raise ValueError: {out}",
+                                 {"pair": pname, "left": f"{ka}({ua!r})", "right": f"{kb}({ub!r})", "op": oname, "observed": out})
+            ck.count("cross-registry:" + pname)
+            ck.case(key=("xreg", pname, ua, ub), nontrivial=True)
+    # same registry: the model says "proceeds" (or TypeError for Unit +/- Unit)
+    for _ in range(40 if R.thorough else 12):
+        ua, ub = rng.choice(unit_strs), rng.choice(unit_strs)
+        A, B = objs(a, ua, 2), objs(a, ub, 3)
+        for ka, x in A.items():
+            for kb, y in B.items():
+                for oname, (op, cop) in XOPS.items():
+                    out = outcome(op, x, y)
+                    xl, xr = coq_obj(x, R.regid(a)), coq_obj(y, R.regid(a))
+                    xo = {"ValueError": "XoValueError", "TypeError": "XoTypeError"}.get(out[0], "XoOther")
+                    if xl and xr:
+                        R.case(f"KXop {coq_bool(unit_order_checked)} {cop} {xl} {xr} {xo}", {"op": "xop-same", "left": ka, "right": kb, "opname": oname},
+                               ("xop-same", ua, ub, ka, kb, oname))
+
+
+# ------------------------------------------------------------------ driver
+def run(ck):
+    warnings.simplefilter("ignore")
+    logging.getLogger("pint").setLevel(logging.CRITICAL)
+    logging.getLogger("pint.util").setLevel(logging.CRITICAL)
+    R = Run(ck)
+    ck.rule = ("random quantities / units / measurements over all canonical units of the default registry (float and Fraction "
+               "registries), ~45% of names prefixed (registered only by parsing), 1-4 names, int / non_int_type exponents; magnitudes "
+               "int, float, Fraction, Decimal, ndarray (float/int, several shapes), ufloat; images: pickle protocols 0-5, copy, "
+               "deepcopy, from_tuple(to_tuple()); UnitsContainer / ParserHelper for float/Fraction/Decimal incl. malformed state "
+               "tuples; every exception class found by T5 x random arguments x 5 call styles (positional, keywords, mixed, defaults, "
+               "malformed) x 8 images; unpickling histories in fresh subprocesses; registry pairs (fresh, used, application, lazy, "
+               "Fraction) x random definition sequences x both directions; LazyRegistry first-touch paths; operators + - * / < <= > >= "
+               "(and in-place, //, %, **) for Quantity/Unit/Measurement x 5 registry pairs. non-trivial = distinct "
+               "(operation, input) with a non-empty object")
+    ck.assumptions += [
+        "CPython's pickle / copy machinery itself is trusted (it is run, not modelled)",
+        "magnitudes are opaque data in the model; floats are compared bit for bit only where no arithmetic happens",
+        "unit names in containers are identifiers (what pint produces); other keys are exercised by the oracles only",
+        "exception `args` is compared only for classes that keep their data there (no __init__ of their own): for the others "
+        "BaseException.__new__ records the call's positional arguments, which legitimately differ after defaults are filled in",
+        "aliasing between a registry and its deep copy is covered by K (probe sets), not by a theorem",
+    ]
+    ck.trusted += ["T5 translator harness/t5_errors.py (ast reading of pint's exception classes; fail-closed)",
+                   "flexparser.ParsingError defines no __init__/__reduce__ (checked by T5 on its source)"]
+    from . import t5_errors
+    try:
+        rows = t5_errors.table(REPO)
+    except Exception as e:
+        rows = []
+        ck.broken.append(f"translator T5: {type(e).__name__}: {e}")
+    ck.extra["t5_classes"] = [r["qual"] for r in rows]
+    import time
+    tm, t0 = {}, time.time()
+
+    def lap(name):
+        nonlocal t0
+        tm[name] = round(time.time() - t0, 1)
+        t0 = time.time()
+    ck.extra["timing_s"] = tm
+    built_run = ck.coq_build(["Model/SerialRun.vo"])
+    built = ck.coq_build(["Properties/C18.vo"])
+    lap("coq build + assumptions")
+
+    import pint
+    app = pint.application_registry.get()
+    R.rid[id(app)] = 0
+    pools = [Pool(pint.UnitRegistry(cache_folder=None)), Pool(pint.UnitRegistry(non_int_type=F, cache_folder=None))]
+    objs = part_objects(R, pools, app)
+    part_containers(R)
+    lap("objects + containers")
+    if rows:
+        part_exceptions(R, pools, rows)
+    lap("exceptions")
+    snap0, useq_cases = part_subprocess(R, pools, objs)
+    lap("fresh subprocesses")
+    part_registry_pairs(R)
+    lap("registry pairs")
+    part_lazy(R)
+    lap("lazy vs explicit")
+    part_cross_registry(R)
+    lap("cross-registry operators")
+
+    # ---------------------------------------------------------------- differ inside Coq
+    bad = ck.coq_mismatches("c18", HEADER, [c for c, _ in R.cases], "c18_ok") if built_run else None
+    lap("coq differ (cases)")
+    bad_u = []
+    if built_run and useq_cases and snap0:
+        # every child starts from the same tables (checked above), so one header serves all histories
+        same = [u for u in useq_cases if u[2] == snap0]
+        R.oracle(len(same) == len(useq_cases), "subprocess:initial-registry", "fresh processes start from different default registries", {})
+        r = ck.coq_mismatches("c18_useq", HEADER + coq_app0(snap0), [u[0] for u in same], "(useq_ok app0)", shard=1)
+        bad_u = None if r is None else [(i, same[i][1]) for i in r]
+    lap("coq differ (unpickling histories)")
+    ck.extra["model_vs_impl_cases"] = len(R.cases) + sum(d["steps"] for _, d, _ in useq_cases)
+    ck.extra["model_vs_impl_disagreements"] = None if bad is None or bad_u is None else len(bad) + len(bad_u)
+    seen = {}
+    for key, desc, rp in R.fails:             # one report per key: the smallest failing input
+        size = len(json.dumps(rp, default=str))
+        if key not in seen or size < seen[key][0]:
+            seen[key] = (size, desc, rp)
+    for key, (_, desc, rp) in seen.items():
+        ck.violation(key, desc, rp)
+    ck.extra["failed_oracle_keys"] = sorted(seen)
+    if bad:
+        first = R.cases[bad[0]]
+        shown = ck.coq_show(HEADER, f"c18_ok ({first[0]})")
+        if not [v for v in ck.violations]:
+            ck.violation("correspondence", "model and implementation disagree; no property oracle failed",
+                         {"first_disagreement": first[1], "coq_case": first[0][:3000], "n_disagreements": len(bad), "coq": shown}, no_input=True)
+        ck.broken.append(f"correspondence Model.SerialRun.c18_ok: {len(bad)} disagreements, first: {json.dumps(first[1], default=str)[:400]}")
+    if bad_u:
+        if not [v for v in ck.violations]:
+            ck.violation("correspondence-unpickle", "model and implementation disagree on an unpickling history in a fresh process",
+                         {"children": [d for _, d in bad_u]}, no_input=True)
+        ck.broken.append(f"correspondence Model.SerialRun.useq_ok: histories {[i for i, _ in bad_u]} disagree")
+
+
+def replay(ck, path):
+    """re-run the failing input of a replay file on the real code where that is self-contained"""
+    warnings.simplefilter("ignore")
+    data = json.load(open(path))
+    print(json.dumps(data, indent=1)[:4000])
+    rp = data.get("replay", {})
+    import pint
+    if data.get("key", "").startswith("exn-roundtrip:") and "class" in rp:
+        cls = load_class(rp["class"])
+        print("re-running: construct", rp["class"], rp.get("args"), rp.get("kwargs"))
+        try:
+            e = cls(*[eval(a) for a in rp.get("args", [])], **{k: eval(v) for k, v in rp.get("kwargs", {}).items()})
+            r = pickle.loads(pickle.dumps(e))
+            print("before:", repr(str(e)), e.__dict__)
+            print("after :", repr(str(r)), r.__dict__)
+            return 1 if (str(e) != str(r) or e.__dict__ != r.__dict__) else 0
+        except Exception as ex:
+            print("could not rebuild the arguments from their repr:", ex)
+            return 1
+    if data.get("key", "").startswith("cross-registry:") and "op" in rp:
+        a, b = pint.UnitRegistry(), pint.UnitRegistry()
+        mk = lambda reg, s: {"Quantity": lambda u: reg.Quantity(2, u), "Unit": reg.Unit,
+                             "Measurement": lambda u: reg.Measurement(2.0, 0.5, u)}[s.split("(")[0]](eval(s.split("(", 1)[1][:-1]))
+        op = dict({k: v[0] for k, v in XOPS.items()}, **XOPS_EXTRA)[rp["op"]]
+        out = outcome(op, mk(a, rp["left"]), mk(b, rp["right"]))
+        print("re-run:", rp["left"], rp["op"], rp["right"], "->", out)
+        return 0 if out[0] == "ValueError" else 1
+    if rp.get("kind") in KIND and "units" in rp and "how" in rp:
+        np = _np()
+        from uncertainties import ufloat
+        nit = {"float": float, "Fraction": F, "Decimal": Decimal}[rp.get("non_int_type", "float")]
+        reg = pint.UnitRegistry(non_int_type=nit, cache_folder=None)
+        d = {}
+        for k, v in rp["units"].items():
+            fr = F(v)
+            d[k] = int(fr) if fr.denominator == 1 else (float(fr) if nit is float else nit(fr) if nit is F else Decimal(fr.numerator) / Decimal(fr.denominator))
+            reg.parse_units(k)
+        uc = reg.UnitsContainer(d)
+        try:
+            mag = eval(rp["magnitude"].replace("+/-", ","), {"array": np.array, "Fraction": F, "Decimal": Decimal, "int64": np.int64,
+                                                            "int32": np.int32, "float64": np.float64, "None": None})
+            if isinstance(mag, tuple):
+                mag = ufloat(*mag)
+        except Exception as ex:
+            print("magnitude cannot be rebuilt from its repr:", ex)
+            mag = 1
+        x = reg.Unit(uc) if rp["kind"] == "Unit" else (reg.Measurement(mag.nominal_value, mag.std_dev, reg.Unit(uc))
+                                                       if rp["kind"] == "Measurement" else reg.Quantity(mag, uc))
+        how = rp["how"]
+        if how.startswith("pickle"):
+            y = pickle.loads(pickle.dumps(x, rp.get("protocol", 2)))
+        elif how == "copy":
+            y = copy.copy(x)
+        elif how == "deepcopy":
+            y = copy.deepcopy(x)
+            print("shares _units:", y._units is x._units)
+            if y._units is x._units:
+                return 1
+        else:
+            y = type(x).from_tuple(x.to_tuple())
+        print("before:", canon_obj(x))
+        print("after :", canon_obj(y))
+        return 0 if canon_obj(x) == canon_obj(y) else 1
+    return 1
